@@ -51,6 +51,7 @@ ADAPTF = "tangelo/toolboxes/ansatz_generator/adapt_ansatz.py"
 JKMNF = "tangelo/toolboxes/qubit_mappings/jkmn.py"
 FROZ = "tangelo/toolboxes/molecular_computation/frozen_orbitals.py"
 POSTS = "tangelo/toolboxes/post_processing/post_selection.py"
+UCCGDF = "tangelo/toolboxes/ansatz_generator/uccgd.py"
 ISP = "tangelo/toolboxes/molecular_computation/integral_solver_pyscf.py"
 
 FIRE = [
@@ -183,6 +184,7 @@ FIRE = [
     ("combined-penalty-sz-uses-n-target", "C12", [(PEN, '        prefactor, sz = penalty_terms["Sz"][:]', '        prefactor, sz = penalty_terms["Sz"][0], penalty_terms["N"][1]')], "K9.penalty"),
     ("combined-penalty-drops-ordering", "C12", [(PEN, "        pen_ferm += spin_operator_penalty(n_orbs, sz, mu=prefactor, up_then_down=up_then_down)", "        pen_ferm += spin_operator_penalty(n_orbs, sz, mu=prefactor)")], "K9.penalty"),
     ("number-operator-from-spin-list", "C12", [(FO, "    all_terms = number_operator_list(n_orbs, up_then_down)\n    num_op = list_to_fermionoperator(all_terms)", "    all_terms = spinz_operator_list(n_orbs, up_then_down)\n    num_op = list_to_fermionoperator(all_terms)")], "K9.symmetry-operators"),
+    ("uccgd-spin-from-whole-molecule", "C12", [(UCCGDF, "        self.spin = molecule.active_spin", "        self.spin = molecule.spin")], "K8.spin-source"),
     ("s2-exchange-coefficient", "C12", [(FO, "                                 [((up[0], 1), (dn[1], 0), (dn2[0], 1), (up2[1], 0)), 1/2],", "                                 [((up[0], 1), (dn[1], 0), (dn2[0], 1), (up2[1], 0)), 1/4],")], "K9.symmetry-operators"),
     ("sz-sign", "C12", [(FO, "[((up[0], 1), (up[1], 0)), 1/2], [((dn[0], 1), (dn[1], 0)), -1/2]", "[((up[0], 1), (up[1], 0)), 1/2], [((dn[0], 1), (dn[1], 0)), 1/2]")], "K9.symmetry-operators"),
     # ---- C04
